@@ -42,15 +42,32 @@ def tier_conf(mod, tier):
     return conf
 
 
+SHARD_ENVS = {5: "python-O", 6: "debug-logging"}
+
+
+def apply_shard_env(kind):
+    if kind == "debug-logging":
+        import logging
+
+        logging.basicConfig(level=logging.DEBUG, stream=open(os.devnull, "w"), force=True)
+        logging.getLogger("auditok").setLevel(logging.DEBUG)
+        logging.getLogger("auditok.core").setLevel(logging.DEBUG)
+
+
 def run_shard(pid, tier, seed, shard, nshards, budget_s, out):
     """Child-process entry."""
     import faulthandler
 
     mod = load_prop(pid)
     assert_repo_tree()
+    kind = os.environ.get("VF_SHARD_ENV", "")
+    apply_shard_env(kind)
     # wall-clock watchdog: firing => the parent sees a dead shard => inconclusive
     faulthandler.dump_traceback_later(budget_s * 3 + 120, exit=True)
     ctx = Ctx(pid, tier, seed, shard, nshards, budget_s)
+    ctx.shard_env = kind
+    if kind:
+        ctx.count("shards_run_under_" + kind + ("" if kind != "python-O" or sys.flags.optimize else "-FLAG-MISSING"))
     try:
         from . import parcases
 
@@ -139,11 +156,15 @@ def check(pid, tier, seed=None, keep=False):
                 i = pending.pop(0)
                 out = os.path.join(work, f"shard{i}.json")
                 log = open(os.path.join(work, f"shard{i}.log"), "wb")
+                # process environments a library must not be sensitive to: one shard in eight runs under `python -O`
+                # (no asserts, __debug__ False), one with DEBUG logging switched on for every logger
+                kind = SHARD_ENVS.get(i % 8, "") if nshards >= 8 else ""
                 p = subprocess.Popen(
-                    [sys.executable, "-m", "vf", "shard", pid, "--tier", tier, "--seed", str(seed),
+                    [sys.executable] + (["-O"] if kind == "python-O" else []) +
+                    ["-m", "vf", "shard", pid, "--tier", tier, "--seed", str(seed),
                      "--shard", str(i), "--nshards", str(nshards), "--budget", str(conf["budget_s"]),
                      "--out", out],
-                    stdout=log, stderr=subprocess.STDOUT, cwd=HOME,
+                    stdout=log, stderr=subprocess.STDOUT, cwd=HOME, env=dict(os.environ, VF_SHARD_ENV=kind),
                 )
                 running[i] = (p, out, log, time.monotonic())
             time.sleep(0.02)
@@ -183,6 +204,10 @@ def check(pid, tier, seed=None, keep=False):
 
     if pid in parcases.BY_PROPERTY and merged["counters"].get("parallel_rounds", 0) == 0:
         reasons.append("the several-threads workload never ran")
+    if nshards >= 8:
+        for kind in SHARD_ENVS.values():
+            if merged["counters"].get("shards_run_under_" + kind, 0) == 0:
+                reasons.append(f"no shard ran under {kind}")
     if merged["evaluations"] == 0:
         reasons.append("no case executed")
     if merged["distinct_nontrivial"] < 2:
@@ -241,6 +266,11 @@ def replay(path):
     with open(path) as fp:
         rec = json.load(fp)
     pid = rec["property"]
+    kind = rec["witness"].get("process_environment", "") if isinstance(rec.get("witness"), dict) else ""
+    if kind == "python-O" and not sys.flags.optimize:
+        # the witness was observed under `python -O`: replay it there
+        return subprocess.run([sys.executable, "-O", "-m", "vf", "replay", path], cwd=HOME).returncode
+    apply_shard_env(kind)
     mod = load_prop(pid)
     assert_repo_tree()
     ctx = Ctx(pid, rec.get("tier", "quick"), rec.get("seed", 0), 0, 1, 600, replay=True)
